@@ -1,6 +1,7 @@
 package main
 
 import (
+	"os"
 	"fmt"
 	"strings"
 
@@ -28,6 +29,11 @@ func analyzeSingle(c *Check, p *Prog) *singleDesc {
 	if len(sum.Undecided) > 0 {
 		c.Undecided("R-EXTRACT", "SingleDetect", p.Pos(fn.Pos()), "extractor does not cover: %s", strings.Join(sum.Undecided, "; "))
 		return nil
+	}
+	// a table-driven choice of the pattern length (`for _, m := range []int{8, 4}`) is unrolled into its iterations
+	unrollSmallLoops(x.S, sum)
+	if os.Getenv("VERIF_DUMP_SD") != "" {
+		fmt.Fprint(os.Stderr, sum.Dump(p))
 	}
 	d := &singleDesc{X: x, Sum: sum, Fn: fn, Source: sum.Params[0]}
 	uses := sourceUses(sum, d.Source)
@@ -66,8 +72,9 @@ func checkErrSingle(c *Check, p *Prog, d *singleDesc) {
 	}
 	var others []string
 	if found != nil {
-		d.Sum.Top.Events(func(e *Event, _ []*LoopS) {
-			if e != found && e.Seq > d.Read.Seq && !S.Exclusive(e.Guard, errG) {
+		d.Sum.Top.Events(func(e *Event, loops []*LoopS) {
+			// an event inside a loop runs under the loop's entry condition as well
+			if e != found && e.Seq > d.Read.Seq && !S.Exclusive(outerGuard(e, loops), errG) {
 				others = append(others, e.String(p))
 			}
 		})
